@@ -422,6 +422,7 @@ inductive Op where
   | add (m : MsgAdd)
   | remove (m : MsgRemove)
   | send (src dst : Addr) (d : Denom) (amt : Nat)   -- any bank transfer, e.g. a donation to an escrow
+  | autoSwap (rcpt : Addr) (dIn : Denom) (maxIn out : Nat)   -- onboarding: keeper-level `TradeInputForExactOutput`, payer = recipient
   | setParams (p : Params)                           -- governance (validated by C17's predicate)
   | setTime (sec nsec : Nat)
 deriving Repr
@@ -436,6 +437,11 @@ def step (env : Env) (s : State) : Op → R (State × Resp)
   | .remove m => remove env s m
   | .send src dst d amt =>
     s.bank.applyAll [.xfer src dst d amt] >>= fun b => .ok ({ s with bank := b }, .none)
+  | .autoSwap rcpt dIn maxIn out =>
+    -- x/onboarding calls the keeper function directly: no message validation, no deadline, no blocked-recipient check
+    trade env s dIn maxIn s.std out true >>= fun (sold, bought, esc) =>
+    s.bank.applyAll (swapEffs rcpt rcpt esc dIn sold s.std bought) >>= fun bank' =>
+    .ok ({ s with bank := bank' }, .swap sold)
   | .setParams p =>
     ensure p.valid (.invalid "params") >>= fun _ => .ok ({ s with params := p }, .none)
   | .setTime sec nsec => .ok ({ s with nowSec := sec, nowNsec := nsec }, .none)
